@@ -47,6 +47,13 @@ type Net struct {
 	OnFault func(kind string)
 	Dials   int
 	live    []*conn // client ends of established connections
+	// OnStaleReply, when set, is told when a client end reads bytes its peer
+	// had sent before the client's current request reached the peer - i.e. a
+	// client of a strict request/response protocol without request ids takes
+	// the late answer to an earlier, abandoned request for the answer to its
+	// current one (a connection reused after a timed-out read). Only for
+	// networks that carry nothing but such protocols (no pipelining).
+	OnStaleReply func(desc string)
 }
 
 // New returns an empty network.
@@ -147,12 +154,27 @@ type half struct {
 	deadline time.Time
 	dtimer   *time.Timer
 	sent     int64
+	stamps   []stampRun // parallel to buf: which request turn the bytes belong to
+}
+
+// stampRun says that the next n bytes of a half's buffer carry stamp seq: for
+// client->server bytes the client's request turn (it advances with every
+// write that follows a read), for server->client bytes the highest request
+// turn the server had read when it wrote them.
+type stampRun struct {
+	n   int
+	seq int64
 }
 
 func newHalf() *half {
 	h := &half{}
 	h.cond = sync.NewCond(&h.mu)
 	return h
+}
+
+type chunk struct {
+	p   []byte
+	seq int64
 }
 
 type conn struct {
@@ -164,8 +186,13 @@ type conn struct {
 	isClient bool
 	peer     *conn
 	wmu      sync.Mutex
-	inflight [][]byte
+	inflight []chunk
 	wdl      time.Time
+	// request/response bookkeeping for OnStaleReply
+	turn           int64 // client: current request turn
+	readSinceWrite bool  // client: a Read was made since the last Write
+	seen           int64 // server: highest client turn read so far
+	staleReported  bool
 	closeMu  sync.Mutex
 	closed   bool
 }
@@ -263,6 +290,9 @@ func (c *conn) Read(b []byte) (int, error) {
 	h := c.rd
 	h.mu.Lock()
 	defer h.mu.Unlock()
+	if c.isClient {
+		c.readSinceWrite = true
+	}
 	for {
 		if h.rclosed {
 			return 0, errClosed
@@ -270,6 +300,7 @@ func (c *conn) Read(b []byte) (int, error) {
 		if len(h.buf) > 0 {
 			n := copy(b, h.buf)
 			h.buf = h.buf[n:]
+			c.consumeStamps(h, n)
 			return n, nil
 		}
 		if h.err != nil {
@@ -293,7 +324,31 @@ func (c *conn) Read(b []byte) (int, error) {
 
 // deliver appends data to the direction's buffer, applying the reset/close
 // byte budgets of the policy.
-func (c *conn) deliver(data []byte) {
+// consumeStamps accounts for n bytes just read from h (h.mu held).
+func (c *conn) consumeStamps(h *half, n int) {
+	for n > 0 && len(h.stamps) > 0 {
+		r := &h.stamps[0]
+		k := r.n
+		if k > n {
+			k = n
+		}
+		if c.isClient {
+			if r.seq > 0 && r.seq < c.turn && !c.staleReported && c.n.OnStaleReply != nil {
+				c.staleReported = true
+				c.n.OnStaleReply(fmt.Sprintf("connection %s -> %s: the client is in its request turn %d and read bytes the peer had sent when it had only seen turn %d: the late answer to an earlier request is taken for the answer to the current one", c.local, c.remote, c.turn, r.seq))
+			}
+		} else if r.seq > c.seen {
+			c.seen = r.seq
+		}
+		r.n -= k
+		n -= k
+		if r.n == 0 {
+			h.stamps = h.stamps[1:]
+		}
+	}
+}
+
+func (c *conn) deliver(data []byte, seq int64) {
 	h := c.wr
 	h.mu.Lock()
 	defer h.mu.Unlock()
@@ -315,6 +370,9 @@ func (c *conn) deliver(data []byte) {
 			keep = 0
 		}
 		h.buf = append(h.buf, data[:keep]...)
+		if keep > 0 {
+			h.stamps = append(h.stamps, stampRun{int(keep), seq})
+		}
 		h.sent += keep
 		if clean {
 			h.eof = true
@@ -335,6 +393,9 @@ func (c *conn) deliver(data []byte) {
 		return
 	}
 	h.buf = append(h.buf, data...)
+	if len(data) > 0 {
+		h.stamps = append(h.stamps, stampRun{len(data), seq})
+	}
 	h.sent += int64(len(data))
 	h.cond.Broadcast()
 }
@@ -363,13 +424,30 @@ func (c *conn) Write(b []byte) (int, error) {
 	}
 	data := append([]byte(nil), b...)
 	frag := c.pol.Fragment
+	// the request turn these bytes belong to (see stampRun)
+	var seq int64
+	if c.isClient {
+		rh := c.rd
+		rh.mu.Lock()
+		if c.turn == 0 || c.readSinceWrite {
+			c.turn++
+			c.readSinceWrite = false
+		}
+		seq = c.turn
+		rh.mu.Unlock()
+	} else {
+		rh := c.rd
+		rh.mu.Lock()
+		seq = c.seen
+		rh.mu.Unlock()
+	}
 	send := func(p []byte) {
 		if c.pol.Latency > 0 {
 			// Timers that expire at the same instant fire in no particular
 			// order; a byte stream must stay FIFO. Every expiry therefore
 			// delivers the oldest chunk still in flight.
 			c.wmu.Lock()
-			c.inflight = append(c.inflight, p)
+			c.inflight = append(c.inflight, chunk{p, seq})
 			c.wmu.Unlock()
 			time.AfterFunc(c.pol.Latency, func() {
 				// pop and deliver under one lock: two expiries at the same
@@ -377,11 +455,11 @@ func (c *conn) Write(b []byte) (int, error) {
 				c.wmu.Lock()
 				head := c.inflight[0]
 				c.inflight = c.inflight[1:]
-				c.deliver(head)
+				c.deliver(head.p, head.seq)
 				c.wmu.Unlock()
 			})
 		} else {
-			c.deliver(p)
+			c.deliver(p, seq)
 		}
 	}
 	if frag > 0 {
